@@ -154,6 +154,8 @@
   /* keys (myth_tls_func.h) */ \
   X(KEY_ALLOC_BEFORE_CAS, W) \
   X(KEY_DEALLOC_BEFORE_CAS, W) \
+  X(KEY_ALLOC_AFTER_UNLOCK, W) \
+  X(KEY_DEALLOC_AFTER_UNLOCK, W) \
   /* init / fini (myth_init.c, myth_worker_func.h) */ \
   X(INIT_WON, C) \
   X(INIT_WAITED, C) \
